@@ -124,6 +124,11 @@ Section Exec.
     all_zero (idx_n idx) && Nat.eqb (length (idx_n idx)) (xw_np W)
     && Nat.ltb (idx_i idx) (xw_nb W) && Nat.ltb (idx_j idx) (xw_nb W).
 
+  (** a full index of a series of this computation: blocks in range, one order per parameter *)
+  Definition wf_index (idx : index) : bool :=
+    Nat.ltb (idx_i idx) (xw_nb W) && Nat.ltb (idx_j idx) (xw_nb W)
+    && Nat.eqb (length (idx_n idx)) (xw_np W).
+
   Definition start_sval (d : sdef) (idx : index) : option (sval V) :=
     if x_start_index idx then
       match sstart d with
@@ -333,6 +338,9 @@ Section Exec.
     Definition getitem_step (tb : tbl) (k : key) (idx : index) : M (sval V) :=
       fun s =>
         let ck := (tb, k, idx) in
+        (* wrong number of orders / block index out of range: IndexError (_check_number_perturbations,
+           numpy indexing of the trial array) *)
+        if negb (wf_index idx) then (Raise IndexError, s) else
         match st_lookup s ck with
         | Some Pending => (Raise RuntimeError, s)        (* infinite recursion loop detected *)
         | Some (Done v) => (Ok v, s)
